@@ -59,6 +59,20 @@ def param(p):
         if "carr" in p:
             a = np.array(p["carr"], dtype=float)
             return a[..., 0] + 1j * a[..., 1]
+        if "phases" in p:
+            return np.exp(1j * np.array(p["phases"], dtype=float))
+        if "Udim" in p:
+            d = p["d"]
+            fl = list(p["Udim"])
+            vals = np.array([fl[i % len(fl)] + 0.29 * (i // len(fl)) for i in range(2 * d * d)], dtype=float)
+            A = (vals[: d * d] + 1j * vals[d * d:]).reshape(d, d) + 1e-3 * np.eye(d)
+            Q, R = np.linalg.qr(A)
+            return Q * (np.diag(R) / np.abs(np.diag(R)))
+        if "mat" in p:
+            r, c = p["r"], p["c"]
+            fl = list(p["mat"])
+            vals = np.array([fl[i % len(fl)] + 0.17 * (i // len(fl)) for i in range(r * c)], dtype=float)
+            return vals.reshape(r, c)
         if "int" in p:
             return int(p["int"])
         raise ValueError(p)
@@ -96,11 +110,12 @@ def build_op(s):
         return qp.Snapshot(s.get("kw", {}).get("tag"))
     cls = getattr(qp, kind, None) or getattr(qp.ops, kind, None) or getattr(qp.templates, kind)
     ps = [param(p) for p in s.get("p", [])]
-    kw = {k: (param(v) if isinstance(v, (dict, list)) and k not in ("control_values", "work_wires", "pauli_word") else v)
-          for k, v in s.get("kw", {}).items()}
+    kw = {k: (param(v) if isinstance(v, dict) else v) for k, v in s.get("kw", {}).items()}
     if "work_wires" in kw:
         kw["work_wires"] = [wire(w) for w in kw["work_wires"]]
     ws = [wire(w) for w in s["w"]]
+    if kind == "SelectPauliRot":
+        return cls(*ps, control_wires=[wire(w) for w in kw["control_wires"]], target_wire=wire(kw["target_wire"]), rot_axis=kw["rot_axis"])
     return cls(*ps, wires=ws, **kw)
 
 
@@ -159,6 +174,11 @@ def spec_wires(c):
                     w = wire(w)
                     if w not in seen:
                         seen.append(w)
+            kw = s.get("kw") or {}
+            for w in list(kw.get("control_wires") or []) + ([kw["target_wire"]] if "target_wire" in kw else []) + list(kw.get("work_wires") or []):
+                w = wire(w)
+                if w not in seen:
+                    seen.append(w)
             for k in ("base", "obs"):
                 if s.get(k):
                     visit(s[k])
